@@ -9,7 +9,7 @@
      wfaults = VList [VTup [VInt call; VInt mode; VInt j; VInt cls]; ...]   mode 0 before, 1 after mkdir, 2 torn after j bytes
      cfaults = VList [VTup [VInt partition; VInt attempt; VInt cls; VBool lazy]; ...]
      cls     = 0 injector's own Exception | 1 OSError | 2 StopIteration | 3 GeneratorExit | 4 StopIteration from next() on an empty iterator
-   result = VTup [outcome; final fs; VList history; VInt dump_calls; VBool locked; follow-up job; read-back; names]
+   result = VTup [outcome; final fs; VList history; VInt dump_calls; VBool locked; follow-up job; read-back; names; per-part read]
      names = the real file names in the final directory (from the regenerated format), in byte order
      entries of a directory in name order; read-back = VNone when not read (no marker / failed save) *)
 From Coq Require Import ZArith NArith List Bool String.
@@ -85,7 +85,7 @@ Fixpoint dec_wfaults (l : list val) : option (list (nat * (wfault * cls))) :=
 Fixpoint dec_cfaults (l : list val) : option (list (nat * nat * (cls * bool))) :=
   match l with
   | [] => Some []
-  | VTup [VInt i; VInt a; VInt c; VBool lazy] :: r =>
+  | VTup [VInt i; VInt a; VInt c; VBool lazy; VInt _] :: r =>   (* last: element position of a lazy fault *)
       match dec_cfaults r, dec_cls c with
       | Some fs, Some k => Some ((Z.to_nat i, Z.to_nat a, (k, lazy)) :: fs)
       | _, _ => None
@@ -156,8 +156,18 @@ Definition observe (p : plan) (m : nat) (xs : list A) (f0 : fs) : val :=
                | FDir ch => map (fun e => VStr (name_string (suffix_from_last_dot ext) (fst e))) (sort_entries ch)
                | _ => []
                end in
+  (* every part file read on its own, in name order *)
+  let per_part :=
+    match readback, s_fs s1 with
+    | VNone, _ => VNone
+    | _, FDir ch => VList (map (fun e => match decode (snd e) with
+                                          | Ok vs => VList vs
+                                          | Err e' => VErr (exn_name e')
+                                          end) (sort_entries (filter is_part ch)))
+    | _, _ => VNone
+    end in
   VTup [enc_res r; enc_fs (s_fs s1); VList (map enc_fs (s_hist s1)); VInt (Z.of_nat (s_calls s1));
-        VBool (s_locked s1); enc_res r2; readback; VList names].
+        VBool (s_locked s1); enc_res r2; readback; VList names; per_part].
 End Observe.
 
 (* text *)
@@ -194,10 +204,20 @@ Fixpoint unpickle (tbl : list (bytes * list val)) (b : bytes) : res (list val) :
 
 Definition run (c : val) : val :=
   match c with
-  | VTup [VInt saver; VInt m; VList parts; pre; VList wfs; VList cfs; VStr ext] =>
+  | VTup [VInt saver; VInt m; VList parts; pre; VList wfs; VList cfs; VStr ext; VTup [VInt pmode; VInt pk]] =>
       match dec_fs pre, dec_wfaults wfs, dec_cfaults cfs with
       | Some f0, Some w, Some cfl =>
-          let p := mk_plan w cfl in
+          let sizes := map (fun v => match v with
+                                     | VList ls => List.length ls
+                                     | VTup [_; VList es] => List.length es
+                                     | _ => 0%nat
+                                     end) parts in
+          (* pmode 1: the saved data set itself is persisted and take(pk) ran before; 0: not persisted;
+             2: persisted below the failing function (no difference for the save) *)
+          let p := match pmode with
+                   | 1 => persist_plan (take_visits sizes (Z.to_nat pk)) (mk_plan w cfl)
+                   | _ => mk_plan w cfl
+                   end in
           match saver with
           | 0 => match dec_text_parts parts with
                  | Some xs => observe (list bytes) render_text decode_text_val SvText ext p (Z.to_nat m) xs f0
